@@ -12,6 +12,9 @@ pub enum Corr {
     Leaf(usize, usize),
     Auth(usize, usize),
     Root(usize),
+    /// commitment / authentication node + 2^250 (differs only above every digest width)
+    RootHigh(usize),
+    AuthHigh(usize, usize),
     EvalPoint(usize),
     LastCoeff(usize),
     LastShort,
@@ -29,6 +32,8 @@ impl Corr {
             Corr::Leaf(..) => "sibling-leaf",
             Corr::Auth(..) => "auth-node",
             Corr::Root(_) => "layer-commitment",
+            Corr::RootHigh(_) => "layer-commitment-high-bit",
+            Corr::AuthHigh(..) => "auth-node-high-bit",
             Corr::EvalPoint(_) => "eval-point",
             Corr::LastCoeff(_) => "last-coefficient",
             Corr::LastShort => "last-layer-short",
@@ -45,6 +50,8 @@ impl Corr {
             Corr::Leaf(t, i) => json!({"c": "leaf", "t": t, "i": i}),
             Corr::Auth(t, i) => json!({"c": "auth", "t": t, "i": i}),
             Corr::Root(t) => json!({"c": "root", "t": t}),
+            Corr::RootHigh(t) => json!({"c": "roothigh", "t": t}),
+            Corr::AuthHigh(t, i) => json!({"c": "authhigh", "t": t, "i": i}),
             Corr::EvalPoint(t) => json!({"c": "eval", "t": t}),
             Corr::LastCoeff(i) => json!({"c": "lastcoeff", "i": i}),
             Corr::LastShort => json!({"c": "lastshort"}),
@@ -62,6 +69,8 @@ impl Corr {
             "leaf" => Corr::Leaf(g("t")?, g("i")?),
             "auth" => Corr::Auth(g("t")?, g("i")?),
             "root" => Corr::Root(g("t")?),
+            "roothigh" => Corr::RootHigh(g("t")?),
+            "authhigh" => Corr::AuthHigh(g("t")?, g("i")?),
             "eval" => Corr::EvalPoint(g("t")?),
             "lastcoeff" => Corr::LastCoeff(g("i")?),
             "lastshort" => Corr::LastShort,
@@ -79,6 +88,8 @@ impl Corr {
             Corr::Leaf(t, i) => inst.leaves[*t][*i] += Felt::ONE,
             Corr::Auth(t, i) => inst.auths[*t][*i] += Felt::ONE,
             Corr::Root(t) => inst.roots[*t] += Felt::ONE,
+            Corr::RootHigh(t) => inst.roots[*t] += Felt::TWO.pow(250u128),
+            Corr::AuthHigh(t, i) => inst.auths[*t][*i] += Felt::TWO.pow(250u128),
             Corr::EvalPoint(t) => inst.eval_points[*t] += Felt::ONE,
             Corr::LastCoeff(i) => inst.last[*i] += Felt::ONE,
             Corr::LastShort => {
@@ -112,9 +123,11 @@ pub fn corruptions(inst: &Instance, dense: bool) -> Vec<Corr> {
         }
         for i in 0..inst.auths[t].len() {
             out.push(Corr::Auth(t, i));
+            out.push(Corr::AuthHigh(t, i));
             out.push(Corr::DeleteAuth(t, i));
         }
         out.push(Corr::Root(t));
+        out.push(Corr::RootHigh(t));
         if dense {
             // for the zero polynomial every fold is zero whatever the challenge: only
             // judged on dense polynomials
